@@ -52,7 +52,16 @@ Epoch::GetProtectedEpoch() const  //
 void
 Epoch::EnterEpoch()
 {
-  entered_.store(GetCurrentEpoch(), kRelaxed);
+  // publish the snapshot, then make sure the global epoch has not moved on in the
+  // meantime; otherwise the coordinator may already have dropped this epoch.
+  auto epoch = GetCurrentEpoch();
+  while (true) {
+    entered_.store(epoch, kRelaxed);
+    std::atomic_thread_fence(std::memory_order_seq_cst);
+    const auto cur = GetCurrentEpoch();
+    if (cur == epoch) return;
+    epoch = cur;
+  }
 }
 
 void
